@@ -127,18 +127,20 @@ func (s *spy) HandleDisconnect(err error) {
 
 type Client struct {
 	W      *World
+	Flags  []string
 	Idx    int
 	Name   string
 	Pipe   *Pipe
 	Thread *vrt.Thread
 	RH     *hws.RealtimeHandler
 
-	inbuf     []byte
-	handshook bool
-	Log       []*Recv
-	taken     int
-	nextReq   uint32
-	Closed    bool
+	inbuf       []byte
+	handshook   bool
+	Log         []*Recv
+	taken       int
+	nextReq     uint32
+	Closed      bool
+	CloseFrames int
 
 	Disconnects     int
 	DisconnectErr   string
@@ -162,8 +164,11 @@ func (f *fakeRW) Hijack() (net.Conn, *bufio.ReadWriter, error) {
 
 // Connect opens a new client connection; its server thread is spawned but
 // runs only when the scheduler is stepped.
-func (w *World) Connect(name string) *Client {
-	c := &Client{W: w, Idx: len(w.Clients), Name: name, Pipe: NewPipe(name)}
+func (w *World) Connect(name string) *Client { return w.ConnectWith(name, w.Cfg.Flags) }
+
+// ConnectWith opens a connection whose handler gets the given feature flags.
+func (w *World) ConnectWith(name string, flags []string) *Client {
+	c := &Client{W: w, Idx: len(w.Clients), Name: name, Pipe: NewPipe(name), Flags: flags}
 	w.Clients = append(w.Clients, c)
 	req, _ := http.NewRequest("GET", "http://srv/", nil)
 	req.Header.Set("Upgrade", "websocket")
@@ -212,7 +217,7 @@ func (w *World) serve(c *Client, rw http.ResponseWriter, req *http.Request) {
 				FrameDuration:           w.Cfg.FrameDuration,
 				Sessions:                w.Store,
 				Modules:                 w.newModules(),
-				FeatureFlags:            featureflag.New(w.Cfg.Flags),
+				FeatureFlags:            featureflag.New(c.Flags),
 				ReceiptChan:             w.ReceiptChan,
 				PrivateKey:              w.Cfg.PrivateKey,
 			}
@@ -337,6 +342,10 @@ func (c *Client) pump() {
 		payload := append([]byte(nil), b[off:off+n]...)
 		c.inbuf = b[off+n:]
 		r := &Recv{Raw: payload, Opcode: op, Type: -1}
+		if op == 8 {
+			c.CloseFrames++ // the server's close handshake, not a message
+			continue
+		}
 		if op == 2 {
 			r.Type, r.Msg = Decode(payload)
 		}
